@@ -28,7 +28,8 @@ def eval_program(arg) -> dict:
     prog, case, _rng = progrun.make_program(PROP, seed, stream, scratch, stream % 4 == 2,
                                             mc_shape=stream // 4)
     # alternate the origin deterministically so that both are covered in every run
-    prog.enc['origin'] = 'create' if stream % 2 == 0 else 'import'
+    # (odd streams run in a child interpreter with other surroundings - vlib.surroundings)
+    prog.enc['origin'] = 'create' if stream % 4 in (0, 1) else 'import'
     if stream % 4 == 1:
         # dispatcher traffic must be visible for the import origin in every run
         prog.enc['requires'] = {'sts': 'NONE', 'mts': 'ALL'}
@@ -54,7 +55,7 @@ def eval_program(arg) -> dict:
                 prog.enc['provides'] = {'sts': 'NONE', 'mts': 'ALL'}
             out['counts']['programs_with_a_port_named_like_a_shell_part'] = 1
     case['cfg'] = prog.enc
-    prog.release = stream % 4 < 2      # both origins in both build configurations
+    prog.release = stream % 8 < 4      # both origins in both build configurations
     flavor = 'asan'
     if not progrun.build_or_report(prog, case, out, [flavor]):
         return progrun.finish_program(prog, out, case)
@@ -88,7 +89,7 @@ def main(tier: str) -> int:
     if not cxxlab.tools_available():
         raise common.Inconclusive('g++ / clang++-14 not available')
     run = common.Run(PROP, tier)
-    n = 6 if tier == 'quick' else 150
+    n = 8 if tier == 'quick' else 152
     run.require('constructions', 'constructed', 'refused', 'identity_comparisons', 'origin_create',
                 'origin_import', 'posts_seen', 'programs_built_as_release',
                 'programs_built_as_development', 'programs_with_a_port_named_like_a_shell_part')
